@@ -54,26 +54,43 @@ where
     T: AsRef<str>,
 {
     fn decode(&self) -> Result<Vec<u8>, ()> {
-        let input = self.as_ref();
-        let mut result: Vec<u8> = Vec::with_capacity(input.len() * 3 / 4);
+        let input = self.as_ref().as_bytes();
 
-        for group in input.as_bytes().chunks(4) {
+        // The input must consist of whole groups of four characters.
+        if input.len() % 4 != 0 {
+            return Err(());
+        }
+
+        let mut result: Vec<u8> = Vec::with_capacity(input.len() * 3 / 4);
+        let group_count = input.len() / 4;
+
+        for (group_index, group) in input.chunks(4).enumerate() {
             let mut decoded: u32 = 0;
             let mut broken: usize = 4;
 
             for (i, tem) in group.iter().enumerate() {
-                match tem {
-                    b'A'..=b'Z' => decoded |= ((tem - b'A') as u32) << (6 * (3 - i)),
-                    b'a'..=b'z' => decoded |= ((tem - b'a' + 26) as u32) << (6 * (3 - i)),
-                    b'0'..=b'9' => decoded |= ((tem - b'0' + 52) as u32) << (6 * (3 - i)),
-                    b'+' => decoded |= 62_u32 << (6 * i),
-                    b'/' => decoded |= 63_u32 << (6 * i),
+                let value = match tem {
+                    b'A'..=b'Z' => (tem - b'A') as u32,
+                    b'a'..=b'z' => (tem - b'a' + 26) as u32,
+                    b'0'..=b'9' => (tem - b'0' + 52) as u32,
+                    b'+' => 62,
+                    b'/' => 63,
                     b'=' => {
+                        // Padding is only valid as the last one or two characters of the last group.
+                        if group_index != group_count - 1
+                            || i < 2
+                            || group[i..].iter().any(|&c| c != b'=')
+                        {
+                            return Err(());
+                        }
+
                         broken = i;
                         break;
                     }
                     _ => return Err(()),
-                }
+                };
+
+                decoded |= value << (6 * (3 - i));
             }
 
             result.extend_from_slice(&decoded.to_be_bytes()[1..broken]);
